@@ -15,6 +15,18 @@ from props import PROPS as ALL_PROPS  # noqa: E402
 CLAIMED = json.load(open(os.path.join(HERE, 'claimed.json')))
 PROPS = {k: v for k, v in ALL_PROPS.items() if k in CLAIMED}
 
+LEVELS = ['exploration', 'fault_enumeration', 'model_checking', 'proof', 'translation_validation', 'other']
+
+
+def norm_level(x):
+    if x in LEVELS:
+        return x
+    for l in LEVELS:
+        if str(x).startswith(l):
+            return l
+    return 'other'
+
+
 props = [json.loads(l) for l in open(os.path.join(ROOT, 'properties.jsonl'))]
 na_path = os.path.join(HERE, 'not_applicable.json')
 na = json.load(open(na_path)) if os.path.exists(na_path) else {}
@@ -49,7 +61,7 @@ for p in props:
             'evidence_file': 'evidence/%s.json' % i, 'replay_cmd_template': './check %s --replay {path}' % i,
             'engine': 'coq-proof+correspondence',
             'level_claimed': {
-                'category': s.get('level', 'proof'),
+                'category': norm_level(s.get('level', 'proof')),
                 'text': s.get('level_text', 'Machine-checked Coq theorems (%s) over an executable model of the anchored code, for all inputs; '
                               'the model is tied to the code on every run by differential correspondence (model output = implementation '
                               'output on generated and bounded-exhaustive cases) and the proved decidable checker is evaluated on every '
